@@ -59,6 +59,10 @@ def setters : List Setter := [
   ⟨"class_misc_Dipole.py", "Dipole", "moment", "mom", [.assign "self._moment" true ["check_format_input_vector"]]⟩,
   ⟨"class_misc_Triangle.py", "Triangle", "vertices", "val", [.assign "self._vertices" true ["check_format_input_vector"]]⟩]
 
+/-- module-level private functions (`_name`) of the same file that a setter calls: name and statement tree (calls are not followed further;
+a recursive call appears under the function's own name) -/
+def helpers : List (String × List Stmt) := [("_refuse_non_objects", [.loop ["isinstance"] [.ite ["isinstance"] [.expr ["_refuse_non_objects"]] [.expr ["check_format_input_obj"]]]])]
+
 /-- every named parameter of every `__init__`: (class, parameter, kind, target, via); kind = "setter" (`self.<target> = <parameter>` on a property
 with a setter), "plain" (plain attribute), "forward" (passed to `<via>.__init__` as its parameter <target>, bound like Python binds the call),
 "call" (argument number / keyword <target> of the call of <via>), "unused" -/
